@@ -471,7 +471,9 @@ fn parse_mh2o_chunk<R: Read + Seek>(
 
                 // Calculate exact byte count needed for bitmap
                 let tile_count = (instance.width as usize) * (instance.height as usize);
-                let byte_count = tile_count.div_ceil(8);
+                // The bitmap is at most 64 bits (8x8 tiles); hostile width/height must not
+                // make us copy more than 8 bytes into the fixed buffer below.
+                let byte_count = tile_count.div_ceil(8).min(8);
 
                 // Read only the exact bytes needed (not padded to 8)
                 let mut bitmap_bytes = vec![0u8; byte_count];
